@@ -1,6 +1,6 @@
 ---- MODULE ConfigRedactTrace ----
 (* Trace validation of real admin dumps against ConfigRedact (C20).  Events (harness/cmd/c19 -mode redact):
-     new{id,init}        fresh MOSN started from a file with a TLS context (distinct real key) at every slot [p,i] in init
+     new{id,init,form}      fresh MOSN started from a file with a TLS context (distinct real key) at every slot [p,i] in init
      start{ok}
      place{p,k,ok}       runtime update configuring position p with fresh keys at the elements k (listener adapter /
                          cluster manager adapter / UpdateTLSManager / SetExtend)
@@ -17,13 +17,17 @@ EXTENDS ConfigRedact, VTrace
 tvars == <<vars, l>>
 S(seq) == { seq[i] : i \in DOMAIN seq }
 
-TraceInit == /\ l = 1 /\ stored = {} /\ truth = {} /\ leaked = {} /\ redacted = 0 /\ hist = <<>>
+TraceInit == /\ l = 1 /\ stored = {} /\ truth = {} /\ leaked = {} /\ redacted = 0 /\ hist = <<>> /\ form = "pem"
+
+FormTag == IF form = "pem" THEN "" ELSE ":key-" \o form
 
 Slots(seq) == { <<seq[i][1], seq[i][2]>> : i \in DOMAIN seq }
 
 TNew == /\ IsEvent("new")
         /\ \A s \in Slots(Ev.init) : s[1] \in Positions
         /\ stored' = Slots(Ev.init) /\ truth' = Slots(Ev.init) /\ leaked' = {} /\ redacted' = 0 /\ hist' = <<>>
+        /\ form' = IF Has(Ev, "form") THEN Ev.form ELSE "pem"
+        /\ form' \in KeyForms
 
 TStart == /\ IsEvent("start")
           /\ Expect(Ev.ok, "start:refused")
@@ -34,14 +38,14 @@ TPlace == /\ IsEvent("place")
           /\ Expect(Ev.ok, "place:" \o Ev.p \o ":refused")
           /\ stored' = Replace(stored, Ev.p, S(Ev.k))
           /\ truth' = Replace(truth, Ev.p, S(Ev.k))
-          /\ UNCHANGED <<leaked, redacted, hist>>
+          /\ UNCHANGED <<leaked, redacted, hist, form>>
 
 TDump == /\ IsEvent("dump")
          /\ Ev.e \in Endpoints
          /\ LET inView == { s \in stored : s[1] \in ViewOf(Ev.e) } IN
               /\ Expect(Ev.status = 200, "dump:" \o Ev.e \o ":status")
-              /\ \A x \in S(Ev.leaked) : Expect(FALSE, "leak:" \o Ev.e \o ":" \o x)
-              /\ Expect(Ev.redacted >= Cardinality(inView), "placeholder-missing:" \o Ev.e)   \* every key in view is replaced by the placeholder
+              /\ \A x \in S(Ev.leaked) : Expect(FALSE, "leak:" \o Ev.e \o ":" \o x \o FormTag)
+              /\ Expect(~Secret(form) \/ Ev.redacted >= Cardinality(inView), "placeholder-missing:" \o Ev.e \o FormTag)   \* every key in view is replaced by the placeholder
               /\ Expect(Ev.live_diff = <<>>, "dump-altered-live-config:" \o Ev.e)
               /\ Expect(Ev.persisted_diff = <<>>, "dump-altered-persisted-config:" \o Ev.e)
          /\ UNCHANGED vars
@@ -49,8 +53,8 @@ TDump == /\ IsEvent("dump")
 TFinal == /\ IsEvent("final")
           /\ \A p \in { s[1] : s \in truth } : Expect(p \in S(Ev.kept), "persisted-file-lost-key:" \o p)
           /\ Expect(~Ev.placeholder_in_file, "placeholder-in-persisted-file")
-          /\ Expect(Ev.handshake, "tls-handshake-fails-after-dumps")
-          /\ Expect(Ev.reload, "restart-from-persisted-file-fails")
+          /\ Expect(Ev.handshake, "tls-handshake-fails-after-dumps" \o FormTag)
+          /\ Expect(Ev.reload, "restart-from-persisted-file-fails" \o FormTag)
           /\ UNCHANGED vars
 
 TraceNext == TNew \/ TStart \/ TPlace \/ TDump \/ TFinal
